@@ -4,18 +4,10 @@ package main
 
 import (
 	"bytes"
-	"crypto"
-	"crypto/hmac"
-	"crypto/rand"
-	"crypto/rsa"
-	"crypto/sha256"
-	"crypto/sha512"
-	"encoding/base64"
 	"encoding/binary"
 	"encoding/hex"
 	"encoding/json"
 	"fmt"
-	"hash"
 	"io"
 	"net"
 	"net/http"
@@ -38,12 +30,6 @@ import (
 // mode relay: the real access API (go-openapi server) and the real crossbar (handleConnections,
 // serveWs, pumps, hub) wired as relay.Relay wires them, on loopback, under a virtual clock
 // (jwt.TimeFunc, ttlcode via verifhook.Now, deny.Store.SetNowFunc). One fresh instance per case.
-
-const relaySecret = "verif-secret-0123456789"
-const relayAudience = "https://access.example.io"
-const relayTarget = "wss://relay.example.io"
-
-var rsaKey *rsa.PrivateKey
 
 type wsConn struct {
 	c        *websocket.Conn
@@ -77,27 +63,6 @@ type relayInst struct {
 	done           chan string // request paths whose serveWs handler returned
 	now            *int64
 	nowMu          *sync.Mutex
-}
-
-func freePort() int {
-	l, err := net.Listen("tcp", "127.0.0.1:0")
-	if err != nil {
-		panic(err)
-	}
-	defer l.Close()
-	return l.Addr().(*net.TCPAddr).Port
-}
-
-func waitPort(port int) bool {
-	for i := 0; i < 400; i++ {
-		c, err := net.DialTimeout("tcp", "127.0.0.1:"+strconv.Itoa(port), 200*time.Millisecond)
-		if err == nil {
-			c.Close()
-			return true
-		}
-		time.Sleep(5 * time.Millisecond)
-	}
-	return false
 }
 
 // relayRealClock: run the next instances on the real clock (mode expiry) instead of the virtual one
@@ -175,99 +140,6 @@ func (r *relayInst) shutdown() {
 // ---- token construction from a spec: k=v;k=v with typed values
 // a absent | i<int> JSON integer | f<dec> JSON number with fraction | s<hex> JSON string |
 // l<hex>,<hex> JSON array of strings (l alone = empty array) | x ill-typed (JSON object)
-
-func jsonVal(v string) (string, bool) {
-	if v == "" || v == "a" {
-		return "", false
-	}
-	switch v[0] {
-	case 'i', 'f':
-		return v[1:], true
-	case 's':
-		s, _ := unhex(v[1:])
-		b, _ := json.Marshal(s)
-		return string(b), true
-	case 'l':
-		items := []string{}
-		if len(v) > 1 {
-			for _, h := range strings.Split(v[1:], ",") {
-				s, _ := unhex(h)
-				b, _ := json.Marshal(s)
-				items = append(items, string(b))
-			}
-		}
-		return "[" + strings.Join(items, ",") + "]", true
-	case 'x':
-		return "{}", true
-	}
-	return "", false
-}
-
-func b64(b []byte) string { return base64.RawURLEncoding.EncodeToString(b) }
-
-func buildToken(spec string) string {
-	if spec == "-" {
-		return ""
-	}
-	if strings.HasPrefix(spec, "raw:") {
-		s, _ := unhex(spec[4:])
-		return s
-	}
-	kv := map[string]string{}
-	for _, p := range strings.Split(spec, ";") {
-		if i := strings.Index(p, "="); i > 0 {
-			kv[p[:i]] = p[i+1:]
-		}
-	}
-	alg := kv["alg"]
-	header := `{"alg":"` + alg + `","typ":"JWT"}`
-	parts := []string{}
-	for _, c := range [][2]string{{"booking_id", "bid"}, {"topic", "topic"}, {"prefix", "prefix"}, {"scopes", "scopes"},
-		{"aud", "aud"}, {"exp", "exp"}, {"nbf", "nbf"}, {"iat", "iat"}} {
-		if v, ok := jsonVal(kv[c[1]]); ok {
-			parts = append(parts, `"`+c[0]+`":`+v)
-		}
-	}
-	claims := "{" + strings.Join(parts, ",") + "}"
-	signing := b64([]byte(header)) + "." + b64([]byte(claims))
-	secret := relaySecret
-	if kv["sig"] == "badsecret" {
-		secret = "some-other-secret"
-	}
-	var sig []byte
-	mac := func(h func() hash.Hash) []byte {
-		m := hmac.New(h, []byte(secret))
-		m.Write([]byte(signing))
-		return m.Sum(nil)
-	}
-	switch alg {
-	case "HS256", "HS999":
-		sig = mac(sha256.New)
-	case "HS384":
-		sig = mac(sha512.New384)
-	case "HS512":
-		sig = mac(sha512.New)
-	case "RS256":
-		if rsaKey == nil {
-			rsaKey, _ = rsa.GenerateKey(rand.Reader, 1024)
-		}
-		h := sha256.Sum256([]byte(signing))
-		sig, _ = rsa.SignPKCS1v15(rand.Reader, rsaKey, crypto.SHA256, h[:])
-	case "none":
-		sig = []byte{}
-	default:
-		sig = mac(sha256.New)
-	}
-	switch kv["sig"] {
-	case "tampered":
-		if len(sig) > 0 {
-			sig[0] ^= 0x55
-		}
-	case "empty":
-		sig = []byte{}
-	}
-	return signing + "." + b64(sig)
-}
 
 func (r *relayInst) request(method, path, tok string) (int, []byte, string) {
 	req, err := http.NewRequest(method, "http://127.0.0.1:"+strconv.Itoa(r.accessPort)+path, nil)
